@@ -616,7 +616,7 @@ func (p *Parser) resource(sec section) (Resource, error) {
 }
 
 func (p *Parser) resourceHeader(sec section) (ResourceHeader, error) {
-	if p.resHeaderValid {
+	if p.resHeaderValid && p.section == sec {
 		p.off = p.resHeaderOffset
 	}
 
